@@ -70,6 +70,42 @@ theorem single_roundtrip_border_counterexample :
     ¬ ((0 + 49 / 64 : Rat) * 2 - 1 / 4 ≤ 1 / 4 - 0 * 2) := by
   decide +kernel
 
+/-- **in_tensor_in_range**: for output stride 1 or 2 (dividing the tensor size) every position inside
+the tensor — pixel centres `0 … size−1`, hence every in-image keypoint — satisfies the grid-range
+hypothesis `h1` of `single_roundtrip`: the grid `0, os, …` reaches within half a stride of the last pixel. -/
+theorem in_tensor_in_range (size os : Nat) (q : R) (hos : 1 ≤ os) (hos2 : os ≤ 2) (hd : os ∣ size) (hsz : 1 ≤ size)
+    (hq : q ≤ ((size - 1 : Nat) : R)) :
+    q ≤ (((gridLen size os - 1) * os : Nat) : R) + (os : R) / 2 := by
+  obtain ⟨k, rfl⟩ := hd
+  have hk : 1 ≤ k := by
+    rcases Nat.eq_zero_or_pos k with h | h
+    · subst h; simp at hsz
+    · exact h
+  have hgl : gridLen (os * k) os = k := by
+    unfold gridLen
+    have : os * k + os - 1 = os * k + (os - 1) := by omega
+    rw [this, Nat.mul_add_div (by omega), Nat.div_eq_of_lt (by omega)]; simp
+  rw [hgl]
+  have h1 : ((os * k - 1 : Nat) : R) ≤ (((k - 1) * os : Nat) : R) + (os : R) / 2 := by
+    have hcases : os = 1 ∨ os = 2 := by omega
+    rcases hcases with rfl | rfl
+    · have e : (1 * k - 1 : Nat) = (k - 1) * 1 := by omega
+      rw [e]
+      have : (0 : R) ≤ ((1 : Nat) : R) / 2 := by positivity
+      linarith
+    · have e : (2 * k - 1 : Nat) = (k - 1) * 2 + 1 := by omega
+      rw [e]; push_cast; linarith
+  exact le_trans hq h1
+
+/-- **last band, stride 4** (F-C02d): a 32-px tensor with output stride 4 has its last cell at 28; the
+in-image position 31 lies beyond `28 + 4/2`, is assigned to cell 28 and comes back 3 px = 0.75 cell off:
+for `os > 2` the literal "every visible keypoint within half a cell" fails in the last `os/2 − 1` px. -/
+theorem last_band_counterexample :
+    singlePoint (R := Rat) (fun n => (n : Rat)) true
+        { scale := ⟨1, 1⟩, os := 4, maxStride := 4, maxH := none, maxW := none } 32 32 (some (31, 31)) (0, 0)
+      = some (28, 28) ∧ ¬ ((31 : Rat) ≤ (((gridLen 32 4 - 1) * 4 : Nat) : Rat) + (4 : Rat) / 2) := by
+  decide +kernel
+
 /-- no refinement (`δ = 0`) satisfies the refinement hypothesis -/
 theorem no_refinement_ok (g os : Nat) (q : R) :
     |((g : R) + 0) * (os : R) - q| ≤ |((g * os : Nat) : R) - q| := by
@@ -92,6 +128,24 @@ theorem topdown_roundtrip (c : TopDownCfg) (eff tl x δ : R) (n : Nat)
   have hb := le_trans hδ hh
   have := decode_affine hs he (x := x) (tl := tl) hb
   simpa [instanceCoord] using this
+
+/-- **topdown_roundtrip_robust**: "the crop contains the animal" DERIVED instead of assumed (one axis,
+no refinement): if the centroid lies in the centroid grid's range and the keypoint keeps the margin
+`robustAxis` tests with `e = os_c/2/s_c` (half a centroid cell — what `centroid_roundtrip` guarantees),
+then the keypoint seen through the crop cut around the centroid stage's own estimate comes back within
+half an instance cell.  `robustAxis` is the predicate the harness evaluates per keypoint
+(`robust_inside`; the driver returns it so Python and Lean agree case by case). -/
+theorem topdown_roundtrip_robust (c : TopDownCfg) (eff cen x : R) (size nC n : Nat)
+    (hsc : 0 < c.sc.toR (Nat.cast : Nat → R)) (hsi : 0 < c.si.toR (Nat.cast : Nat → R)) (he : 0 < eff)
+    (h0c : 0 ≤ cen * (eff * c.sc.toR Nat.cast))
+    (h1c : cen * (eff * c.sc.toR Nat.cast) ≤ (((nC - 1) * c.osC : Nat) : R) + (c.osC : R) / 2)
+    (hr : robustAxis Nat.cast c size n eff ((c.osC : R) / 2 / c.sc.toR Nat.cast) (cen * eff) x = true) :
+    |instanceCoord Nat.cast c eff (cropTL Nat.cast c size (centroidCoord Nat.cast c eff nC cen 0)) n x 0 - x|
+      ≤ (c.osI : R) / 2 / (c.si.toR Nat.cast * eff) := by
+  have hc := centroid_roundtrip c eff cen nC hsc h0c h1c
+  obtain ⟨hlo, hhi⟩ := robustAxis_spec c size n eff _ (cen * eff) x hr
+  obtain ⟨hx0, hx1⟩ := crop_contains c size _ (cen * eff) _ (x * (eff * c.si.toR Nat.cast)) _ (le_of_lt hsi) hc hlo hhi
+  exact topdown_roundtrip c eff _ x 0 n hsi he hx0 hx1 (by simp)
 
 /-- the whole animal: whatever the centroid stage did (`cen`, `δc` arbitrary), every visible
 keypoint inside its crop's grid range is returned within half a cell; invisible ones stay `none`. -/
@@ -122,6 +176,34 @@ theorem topdown_animal_roundtrip (c : TopDownCfg) (H W : Nat) (cen δc : R × R)
   · simp only [topdownAnimal, List.getElem?_map, List.getElem?_eq_getElem hi, Option.map_some, e]
   · exact topdown_roundtrip c _ _ x 0 _ hs he hx0 hx1 (by simp)
   · exact topdown_roundtrip c _ _ y 0 _ hs he hy0 hy1 (by simp)
+
+/-- **gtc_roundtrip**: top-down with ground-truth centroids (HEAD) is the instance stage with the
+crop centred on the true centroid, so the half-cell bound holds for every keypoint in the crop's
+range — an instance of `topdown_roundtrip`. -/
+theorem gtc_roundtrip (c : TopDownCfg) (eff cen x δ : R) (size n : Nat)
+    (hs : 0 < c.si.toR (Nat.cast : Nat → R)) (he : 0 < eff)
+    (h0 : 0 ≤ x * (eff * c.si.toR Nat.cast) - cropTL Nat.cast c size (cen * eff))
+    (h1 : x * (eff * c.si.toR Nat.cast) - cropTL Nat.cast c size (cen * eff)
+            ≤ (((n - 1) * c.osI : Nat) : R) + (c.osI : R) / 2)
+    (hδ : |((nearest Nat.cast c.osI (x * (eff * c.si.toR Nat.cast) - cropTL Nat.cast c size (cen * eff)) (n - 1) : Nat) + δ)
+              * (c.osI : R) - (x * (eff * c.si.toR Nat.cast) - cropTL Nat.cast c size (cen * eff))|
+          ≤ |((nearest Nat.cast c.osI (x * (eff * c.si.toR Nat.cast) - cropTL Nat.cast c size (cen * eff)) (n - 1) * c.osI : Nat) : R)
+              - (x * (eff * c.si.toR Nat.cast) - cropTL Nat.cast c size (cen * eff))|) :
+    |gtcCoord Nat.cast c eff size n cen x δ - x| ≤ (c.osI : R) / 2 / (c.si.toR Nat.cast * eff) :=
+  topdown_roundtrip c eff _ x δ n hs he h0 h1 hδ
+
+/-- configuration of the F-C02c witness -/
+def gtcWitnessCfg : TopDownCfg :=
+  { sc := ⟨1, 1⟩, osC := 1, msC := 1, si := ⟨1, 2⟩, osI := 1, msI := 1, cropH := 32, cropW := 32,
+    maxH := none, maxW := none }
+
+/-- **regression record F-C02c**: before the fix, 64×96 frame, instance scale ½, stride 1, crop 32, the
+animal's anchor keypoint x = 40 (= its centroid) came back at 79 (≈ x / scale); HEAD returns a
+keypoint at 41 as 41 (40 itself sits on a cell boundary of the half-scale crop). -/
+theorem gtc_asIs_counterexample :
+    gtcCoordAsIs (fun n => (n : Rat)) gtcWitnessCfg 1 32 32 40 40 0 = 79 ∧
+      gtcCoord (fun n => (n : Rat)) gtcWitnessCfg 1 32 32 40 41 0 = 41 := by
+  constructor <;> decide +kernel
 
 /-- the whole single-instance pipeline (preprocessed frame) on a visible keypoint -/
 theorem single_point_roundtrip (c : SingleCfg) (H W : Nat) (x y : R)
@@ -155,7 +237,9 @@ theorem invisible_is_none_topdown (cast : Nat → R) (c : TopDownCfg) (H W : Nat
 theorem visible_is_some_single (cast : Nat → R) (pre : Bool) (c : SingleCfg) (H W : Nat) (p δ : R × R) :
     (singlePoint cast pre c H W (some p) δ).isSome := rfl
 
-/-- **provider_agnostic** (repaired switch): the answer does not depend on the provider. -/
+/-- **provider_agnostic** (HEAD: `preprocess = True` for both providers): the answer does not depend on
+the provider (true by construction of the model — the content of this clause is the harness's
+LabelsReader ≡ VideoReader oracle). -/
 theorem provider_agnostic (cast : Nat → R) (c : SingleCfg) (H W : Nat) (p : Option (R × R)) (δ : R × R) :
     singlePoint cast (preprocessFixed .labels) c H W p δ = singlePoint cast (preprocessFixed .video) c H W p δ :=
   rfl
@@ -163,14 +247,7 @@ theorem provider_agnostic (cast : Nat → R) (c : SingleCfg) (H W : Nat) (p : Op
 /-- top-down never depended on it (`preprocess = False` for both; `CentroidCrop` resizes itself) -/
 theorem provider_agnostic_topdown : preprocessTopDown .labels = preprocessTopDown .video := rfl
 
-/-- as coded, with input scale 1 and no stride padding the switch makes no difference … -/
-theorem provider_agnostic_asIs_partial (cast : Nat → R) (c : SingleCfg) (H W : Nat) (p : Option (R × R))
-    (δ : R × R) (hs : c.scale = ⟨1, 1⟩) (hm : c.maxStride ≤ 1)
-    (h1 : ∀ z : R, z * (cast 1 / cast 1) = z) :
-    singlePoint cast (preprocessAsIs .labels) c H W p δ = singlePoint cast (preprocessAsIs .video) c H W p δ := by
-  simp [singlePoint, preprocessAsIs, singleInputShape, singleActual, hs, resizeLen, padTo, hm, Scale.toR, h1]
-
-/-- … but **as coded the property is false** (F-C02): an 8×8 frame, input scale ½, stride 1,
+/-- **regression record F-C02 (before 569dda2) — with the old per-provider switch the property was false**: an 8×8 frame, input scale ½, stride 1,
 keypoint (5, 3): `LabelsReader` (not resized, still divided by the scale) returns (10, 6),
 `VideoReader` returns (4, 2) (cell of (2.5, 1.5), first minimiser). -/
 theorem provider_agnostic_counterexample :
